@@ -157,3 +157,13 @@ package memstore
 //@           r2 == slIErr(s.iterator, old(slIPos(s.iterator)))
 //@   ensures [ok] slIErr(s.iterator, old(slIPos(s.iterator))) == nil ==> r2 == nil && r0 === slIKey(s.iterator, old(slIPos(s.iterator)))
 //@   modifies slIPos(s.iterator)
+
+// constructor and flush as the database sees them
+//@ func NewMemStore
+//@   assumed
+//@   ensures r0 != nil
+//@   fresh r0
+//@   modifies nothing
+
+//@ iface MemStoreI.FlushWithTombstones
+//@   modifies nothing
